@@ -20,6 +20,7 @@ func init() {
 		ruleR6(c, "C04.S1c")
 		ruleW1(c, "C04.S1d")
 		ruleT3(c, "C04.S6")
+		ruleKind(c, "C04.S7")
 	}
 }
 
